@@ -840,12 +840,14 @@ class TapeRecorder(object):
             try:
                 result = func(*args, **kwargs)
             except Exception as ex:
-                if interception_key is not None:
+                # Recording may have been discarded while the intercepted function was running
+                if interception_key is not None and self._active_recording is not None:
                     # Record exception marking it as exception so we know to throw on playback
                     self._record_data(interception_key, {'exception': ex})
                 raise
 
-        if interception_key is not None:
+        # Recording may have been discarded while the intercepted function was running
+        if interception_key is not None and self._active_recording is not None:
             try:
                 recorded_result = data_handler.prepare_input_for_recording(interception_key, result, args, kwargs) \
                     if data_handler else result
@@ -856,6 +858,10 @@ class TapeRecorder(object):
                 _logger.exception(error_message)
 
                 self.discard_recording()
+                return result
+
+            # Recording may have been discarded by the data handler
+            if self._active_recording is None:
                 return result
 
             if self._active_recording_parameters.copy_data_on_intercepion:
